@@ -232,6 +232,40 @@ theorem reachable_index_complete (limit : Nat) (ops : List Op) (o : Orphan)
     | cons a t => rfl
   simp only [this, Bool.false_eq_true, if_false]
 
+theorem foldl_delete_orphans (l : List Orphan) (s : Pool) :
+    (l.foldl (fun acc o => acc.delete o.id) s).orphans
+      = s.orphans.filter (fun x => !(l.map (·.id)).contains x.id) := by
+  induction l generalizing s with
+  | nil => simp; exact (List.filter_eq_self.mpr (fun _ _ => rfl)).symm
+  | cons o l ih =>
+    simp only [List.foldl_cons]
+    rw [ih, delete_orphans, List.filter_filter]
+    apply List.filter_congr
+    intro x _
+    by_cases hxo : x.id = o.id <;> simp [hxo, Bool.and_comm]
+
+/-- **Expiry is exact**: in a reachable state an expiry pass at reading `k` removes exactly the
+    orphans that arrived at or before `k`, keeps every later one, and keeps their order. -/
+theorem expire_exact (s : Pool) (k : Nat) (hi : Inv s) :
+    (s.expire k).orphans = s.orphans.filter (fun x => decide (k < x.exp)) := by
+  unfold Pool.expire
+  rw [foldl_delete_orphans]
+  apply List.filter_congr
+  intro x hx
+  by_cases hk : k < x.exp
+  · have : ¬ (x.id ∈ (s.orphans.filter (fun o => decide (o.exp ≤ k))).map (·.id)) := by
+      intro hm
+      obtain ⟨y, hy, hyid⟩ := List.mem_map.mp hm
+      have hy' := List.mem_filter.mp hy
+      have := id_inj s.orphans hi.1 y hy'.1 x hx hyid
+      subst this
+      have := hy'.2
+      simp at this; omega
+    simp [hk, this]
+  · have : x.id ∈ (s.orphans.filter (fun o => decide (o.exp ≤ k))).map (·.id) :=
+      List.mem_map.mpr ⟨x, List.mem_filter.mpr ⟨hx, by simp; omega⟩, rfl⟩
+    simp [hk, this]
+
 example : Inv ((Pool.init 2).run [.add 1 7, .add 2 7, .add 3 1, .expire 2]) := reachable_inv _ _
 
 end BytomModel.Props.C12Pool
